@@ -41,7 +41,7 @@ use trust_runtime::web::pairing::PairingStore;
 
 // ------------------------------------------------------------------ fixture constants
 const RES: &str = "ZQRES";
-const ADMIN_TOKEN: &str = "zq-admin-token-7f3a";
+pub(crate) const ADMIN_TOKEN: &str = "zq-admin-token-7f3a";
 const WRONG_TOKEN: &str = "zq-not-a-token-11";
 const NOW: u64 = 1_000_000;
 /// (credential label, token text, pairing id, role, enabled, expires_at)
@@ -122,9 +122,9 @@ fn cred_token(label: &str) -> Option<&'static str> {
 }
 
 // ------------------------------------------------------------------ panic capture
-static PANICS: Mutex<Vec<String>> = Mutex::new(Vec::new());
-static IN_PROBE: AtomicBool = AtomicBool::new(false);
-fn install_panic_hook() {
+pub(crate) static PANICS: Mutex<Vec<String>> = Mutex::new(Vec::new());
+pub(crate) static IN_PROBE: AtomicBool = AtomicBool::new(false);
+pub(crate) fn install_panic_hook() {
     std::panic::set_hook(Box::new(|info| {
         let th = std::thread::current();
         let name = th.name().unwrap_or("").to_string();
@@ -140,16 +140,16 @@ fn install_panic_hook() {
         }
     }));
 }
-fn panic_count() -> usize {
+pub(crate) fn panic_count() -> usize {
     PANICS.lock().map(|g| g.len()).unwrap_or(0)
 }
 
 // ------------------------------------------------------------------ fixture
 #[derive(Clone, Debug, PartialEq)]
-struct Cfg {
-    token: bool,
-    debug: bool,
-    mode: String,
+pub(crate) struct Cfg {
+    pub(crate) token: bool,
+    pub(crate) debug: bool,
+    pub(crate) mode: String,
 }
 impl Cfg {
     fn from(j: &J) -> Cfg {
@@ -171,13 +171,13 @@ fn all_cfgs() -> Vec<Cfg> {
     v
 }
 
-enum Answer {
+pub(crate) enum Answer {
     Line(String),
     Closed,
     Hang(Vec<String>),
 }
 impl Answer {
-    fn line(self) -> Option<String> {
+    pub(crate) fn line(self) -> Option<String> {
         match self {
             Answer::Line(s) => Some(s),
             _ => None,
@@ -185,14 +185,14 @@ impl Answer {
     }
 }
 
-struct Fx {
+pub(crate) struct Fx {
     h: TestHarness,
-    state: Arc<ControlState>,
+    pub(crate) state: Arc<ControlState>,
     _server: ControlServer,
     sock: PathBuf,
     conn: Option<(UnixStream, BufReader<UnixStream>)>,
     root: PathBuf,
-    pairing: Arc<PairingStore>,
+    pub(crate) pairing: Arc<PairingStore>,
     cmds: Arc<Mutex<Vec<String>>>,
     alarm_id: String,
     file_id: u32,
@@ -216,6 +216,12 @@ fn snapshot_of(h: &TestHarness) -> DebugSnapshot {
 
 impl Fx {
     fn build(work: &Path, cfg: &Cfg) -> Fx {
+        Fx::build_with_pairing(work, cfg, None)
+    }
+
+    /// The fixture around a given pairing store (the pairing-lifecycle scripts bring a store with a
+    /// controllable clock); `None` = the static store of the credential matrix at the fixed clock NOW.
+    pub(crate) fn build_with_pairing(work: &Path, cfg: &Cfg, store: Option<Arc<PairingStore>>) -> Fx {
         let n = FX_SEQ.fetch_add(1, Ordering::SeqCst);
         let base = work.join(format!("fx{}-{}", std::process::id(), n));
         let _ = std::fs::remove_dir_all(&base);
@@ -228,9 +234,14 @@ impl Fx {
         .unwrap();
         // pairing store: one valid token per role, one expired, one revoked (file format of the store)
         let tokens: Vec<J> = PAIR.iter().map(|p| json!({"id": p.2, "token": p.1, "created_at": 1000, "enabled": p.4, "role": p.3, "expires_at": p.5})).collect();
-        let pfile = base.join("pairing.json");
-        std::fs::write(&pfile, serde_json::to_vec(&json!({"tokens": tokens})).unwrap()).unwrap();
-        let pairing = Arc::new(PairingStore::with_clock(pfile, Arc::new(|| NOW)));
+        let pairing = match store {
+            Some(p) => p,
+            None => {
+                let pfile = base.join("pairing.json");
+                std::fs::write(&pfile, serde_json::to_vec(&json!({"tokens": tokens})).unwrap()).unwrap();
+                Arc::new(PairingStore::with_clock(pfile, Arc::new(|| NOW)))
+            }
+        };
 
         let mut h = TestHarness::from_source(SOURCE).unwrap_or_else(|e| panic!("fixture program does not compile: {e}"));
         let debug = h.runtime_mut().enable_debug();
@@ -323,6 +334,23 @@ impl Fx {
         fx
     }
 
+    /// The same endpoint state around another pairing store, served on a new socket (a restart of the
+    /// process as far as pairing is concerned: `ControlState::pairing` cannot be replaced in place).
+    pub(crate) fn swap_pairing(&mut self, store: Arc<PairingStore>) {
+        let mut st = (*self.state).clone();
+        st.pairing = Some(store.clone());
+        let state = Arc::new(st);
+        let n = FX_SEQ.fetch_add(1, Ordering::SeqCst);
+        let sock = self.sock.with_file_name(format!("c{n}.sock"));
+        let server = ControlServer::start(ControlEndpoint::Unix(sock.clone()), state.clone()).unwrap_or_else(|e| panic!("control server: {e}"));
+        let _ = std::fs::remove_file(&self.sock);
+        self.conn = None;
+        self.state = state;
+        self._server = server;
+        self.sock = sock;
+        self.pairing = store;
+    }
+
     fn connect(&mut self) -> bool {
         for _ in 0..200 {
             if let Ok(s) = UnixStream::connect(&self.sock) {
@@ -362,7 +390,7 @@ impl Fx {
     /// `Hang`: no reply, and one of the endpoint's locks stayed held for the whole observation
     /// window -- the serving thread is positively wedged, not merely slow.  A silence without
     /// that evidence is a tool-level timeout (exit 2), never a verdict.
-    fn ask(&mut self, line: &str) -> Answer {
+    pub(crate) fn ask(&mut self, line: &str) -> Answer {
         if self.conn.is_none() && !self.connect() {
             panic!("cannot connect to the control socket {:?}", self.sock);
         }
@@ -567,7 +595,7 @@ fn render(template: &str, cred: &str, code: &str, alarm: &str) -> String {
     };
     template.replace("@AUTH@", &auth).replace("@CODE@", code).replace("@ALARM@", alarm)
 }
-fn template_of(id: u64, ty: &str, params: Option<&J>) -> String {
+pub(crate) fn template_of(id: u64, ty: &str, params: Option<&J>) -> String {
     let mut s = format!("{{\"id\":{id},\"type\":{}", J::String(ty.to_string()));
     if let Some(p) = params {
         s.push_str(&format!(",\"params\":{p}"));
@@ -582,7 +610,7 @@ fn role_index(name: &str) -> i64 {
 
 /// Classification of a reply by its wording (auxiliary: used for diagnostics and for the
 /// monotonicity direction only; every security-relevant verdict rests on ok / result / probes).
-fn classify(reply: &Option<J>) -> (String, i64, String) {
+pub(crate) fn classify(reply: &Option<J>) -> (String, i64, String) {
     let Some(r) = reply else { return ("none".into(), -1, String::new()) };
     if r["ok"] == json!(true) {
         return ("ok".into(), -1, String::new());
